@@ -199,3 +199,77 @@ Definition deq_line (id tags : string) (u : string) (n : node) (lf rf : string) 
   u ++ ";" ++ lf ++ ";deq;" ++ rf ++ ";" ++ (if callopts then pr_opts o else "-") ++ ";" ++
   (if same then "same" else "ind") ++ ";" ++ pr_val true a ++ ";" ++ pr_val true b ++ tab ++
   pr_pair ab ba ++ tab ++ spec.
+
+(* ---------- the argument-form matrix ---------- *)
+(* Either operand of DeepEqual / DeepEqualWithOptions may be handed over as T, *T or **T (funcHeaderEqual's
+   type switch); the text speaks of values, so the answer may not depend on the form.  One matrix case runs all
+   3 x 3 ordered form combinations of the pair (a, b), each in both argument orders, all forms of one operand
+   being views of ONE object (T: the interface copy of it, *T: its address, **T: the address of that pointer):
+     <type>;-;deqm;<opts>;<same|ind>;<value a>;<value b>
+     observation  <lf>-<rf>=<ab><ba>  joined by ';'  (ab: a as lf on the left, b as rf on the right; ba: swapped) *)
+Local Open Scope string_scope.
+Definition form_pairs : list (string * string) :=
+  flat_map (fun lf => map (fun rf => (lf, rf)) value_forms) value_forms.
+
+Definition pr_matrix (f : string -> string -> string) : string :=
+  join ";" (map (fun p : string * string => fst p ++ "-" ++ snd p ++ "=" ++ f (fst p) (snd p)) form_pairs).
+
+(* what the text demands of a matrix: the demanded answer in every cell; where the text leaves the answer
+   open (a float difference within the tolerance) still one and the same answer in every form and order *)
+Definition pr_demand_matrix (d : demand) : string :=
+  match d with
+  | DTrue => pr_matrix (fun _ _ => "tt")
+  | DFalse => pr_matrix (fun _ _ => "ff")
+  | DEither => pr_matrix (fun _ _ => "tt") ++ " || " ++ pr_matrix (fun _ _ => "ff")
+  end.
+
+Definition matrix_cells (n : node) (o : option deqopts) (same : bool) (a b : val) : list ((bool + pkind) * (bool + pkind)) :=
+  map (fun p : string * string =>
+         let la := arg_of_form (fst p) a in let rb := arg_of_form (snd p) b in
+         (deep_equal_with_options n same la rb o, deep_equal_with_options n same rb la o)) form_pairs.
+
+Definition first_panic (cs : list ((bool + pkind) * (bool + pkind))) : option pkind :=
+  fold_right (fun c acc => match c with
+                           | (inr k, _) => Some k
+                           | (_, inr k) => Some k
+                           | _ => acc
+                           end) None cs.
+
+Definition pr_ans (x : bool + pkind) : string := match x with inl b => b2s b | inr _ => "!" end.
+
+Definition matrix_kind (cs : list ((bool + pkind) * (bool + pkind))) : string :=
+  match first_panic cs with
+  | Some _ => "m:panic"
+  | None =>
+    if forallb (fun c => match c with (inl true, inl true) => true | _ => false end) cs then "m:t"
+    else if forallb (fun c => match c with (inl false, inl false) => true | _ => false end) cs then "m:f"
+    else "m:mixed"
+  end.
+
+Definition deqm_line (id tags : string) (u : string) (n : node) (callopts : bool)
+                     (o : option deqopts) (same : bool) (a b : val) (d : demand) : string :=
+  let cs := matrix_cells n o same a b in
+  let model :=
+    match first_panic cs with
+    | Some k => "PANIC:" ++ pr_pkind k
+    | None => join ";" (map (fun pc : (string * string) * ((bool + pkind) * (bool + pkind)) =>
+                              let '((lf, rf), (ab, ba)) := pc in lf ++ "-" ++ rf ++ "=" ++ pr_ans ab ++ pr_ans ba)
+                            (combine form_pairs cs))
+    end in
+  id ++ tab ++ tags ++ "," ++ matrix_kind cs ++ tab ++
+  u ++ ";-;deqm;" ++ (if callopts then pr_opts o else "-") ++ ";" ++
+  (if same then "same" else "ind") ++ ";" ++ pr_val true a ++ ";" ++ pr_val true b ++ tab ++
+  model ++ tab ++ pr_demand_matrix d.
+
+(* the first element of every tag class, in list order *)
+Fixpoint first_of_tag {A : Type} (tag : A -> string) (seen : list string) (l : list A) : list A :=
+  match l with
+  | [] => []
+  | x :: r => if mem (tag x) seen then first_of_tag tag seen r else x :: first_of_tag tag (tag x :: seen) r
+  end.
+
+(* the variant with the most mutation positions (every collection populated) *)
+Definition richest (n : node) (l : list (nat * val)) : nat :=
+  fst (fold_left (fun (best : nat * nat) (iv : nat * val) =>
+                    let c := List.length (muts n (snd iv)) in
+                    if Nat.ltb (snd best) c then (fst iv, c) else best) l (0%nat, 0%nat)).
